@@ -349,7 +349,7 @@ def _incompatible(names, c):
     s = set(names)
     if "exact" in s and any(n.startswith("ps_") for n in s):
         return True
-    if "srvprio" in s and any(n.startswith(("sched", "slotted", "ps_", "cinf", "c0")) for n in s):
+    if "srvprio" in s and any(n.startswith(("slotted", "ps_", "cinf", "c0")) for n in s):
         return True
     # pre-emptive priorities need ordinary nodes (checked again after all atoms are applied)
     if any(n.startswith("preempt_") for n in s):
